@@ -371,7 +371,7 @@ impl Property for P {
         (gen::session_with(gen::suite_sealing_cheap()), any::<bool>(), proptest::collection::vec(op, 1..=16)).prop_map(|(sess, spy, ops)| Case { sess, spy, ops }).boxed()
     }
     fn cases(&self, tier: Tier) -> u32 {
-        tier.pick(3000, 30000)
+        tier.pick(12000, 120000)
     }
     fn sweeps(&self, _tier: Tier) -> Vec<(String, Vec<Case>)> {
         let mut v = Vec::new();
